@@ -271,6 +271,13 @@ VARIANTS = [
             "                if handle:\n"
             "                    known.handle = handle\n"
             "            return known\n"},
+    # ---- round 6
+    {"name": "R2 inject_event resolves the session before queueing", "file": REG, "expect": "C17.R2",
+     "old": "        self._queued_events.append(event)\n        if self._region:\n",
+     "new": "        owner = self._region.session()\n        self._queued_events.append(event)\n        if self._region and owner:\n"},
+    {"name": "P R2 inject_event counts the backlog before queueing", "file": REG, "expect": "silent",
+     "old": "        self._queued_events.append(event)\n        if self._region:\n",
+     "new": "        backlog = len(self._queued_events)\n        self._queued_events.append(event)\n        if self._region and backlog >= 0:\n"},
     # ---- documented limit
     {"name": "X swallow on any truthy hook result instead of `is True` (value level)", "file": HEM, "expect": "miss",
      "old": "        if handle_event is True:\n", "new": "        if handle_event:\n"},
